@@ -21,7 +21,12 @@ func init() {
 
 func okOrErrMenu(i, k int) []answer { return []answer{{val: okVal(i)}, {err: itemErr(i, k)}} }
 func okMenu(i, k int) []answer      { return []answer{{val: okVal(i)}} }
-func fbOkOrErr(i int) []answer      { return []answer{{val: 2000 + i}, {err: fbErrTable[i]}} }
+
+// okErrOrErrResultMenu: an execution may also report failure as an error RESULT with a nil Go error
+func okErrOrErrResultMenu(i, k int) []answer {
+	return []answer{{val: okVal(i)}, {val: errResultMarker{err: itemErr(i, k)}}, {err: itemErr(i, k)}}
+}
+func fbOkOrErr(i int) []answer { return []answer{{val: 2000 + i}, {err: fbErrTable[i]}} }
 
 var postX = []answer{{action: "x"}}
 
@@ -108,6 +113,11 @@ func genC06(tier string) []Scenario {
 			add(batchScn{name: fmt.Sprintf("positional n=%d c=%d shape=%s", n, c, shapeNames[sh]), n: n, c: c, shape: sh, yield: true, execMenu: okOrErrMenu, bound: 1, anyExec: sh == shInts})
 		}
 	}
+	// the outcome of an item may be an error Result returned with a nil error: it is that item's
+	// outcome all the same, at its position, on the sequential and on the pooled path
+	for _, c := range []int{0, 1, 2} {
+		add(batchScn{name: fmt.Sprintf("positional-error-results n=2 c=%d exec=ok|errResult|err", c), n: 2, c: c, shape: shResults, yield: c > 0, execMenu: okErrOrErrResultMenu, bound: 0})
+	}
 	// stop-on-error and cancellation: post still sees every slot as item i's own outcome (or an
 	// error for an item that never ran), once, after everything that runs has settled
 	for _, c := range []int{0, 2} {
@@ -170,6 +180,14 @@ func genC07(tier string) []Scenario {
 					out = append(out, sc.scenario())
 				}
 			}
+		}
+	}
+	// every route that installs the exec function gives the same per-item treatment
+	for via := viaBuilderAny; via <= viaOptionAny; via++ {
+		for _, c := range []int{0, 2} {
+			sc := batchScn{name: fmt.Sprintf("per-item via %s n=2 c=%d budget=2 fallback=true", viaNames[via], c), n: 2, c: c, budget: 2, fb: true, execVia: via,
+				shape: shResults, yield: c > 0, execMenu: okOrErrMenu, fbMenu: fbOkOrErr, postMenu: postX, bound: 0, chkPerItem: true}
+			out = append(out, sc.scenario())
 		}
 	}
 	// fine-grained: preemptions between the library's own synchronisation steps (claiming an item,
@@ -275,6 +293,14 @@ func genC08(tier string) []Scenario {
 						b = 2
 					}
 					sc := batchScn{name: fmt.Sprintf("limit-barrier n=%d c=%d D=%v", n, c, d), n: n, c: c, budget: 1, shape: shResults, execMenu: okMenu, postMenu: postX, barrier: d, bound: b, chkLimit: true}
+					if len(d) == c && n == c {
+						// the limit is just as usable when flyt is handed the bare *BatchNode
+						sc2 := sc
+						sc2.name += " (bare *BatchNode)"
+						sc2.unwrap = true
+						sc2.bound = 0
+						out = append(out, sc2.scenario())
+					}
 					out = append(out, sc.scenario())
 				}
 			}
